@@ -439,11 +439,16 @@ static int gen_server_set(vh_rng_t *r, cfg_srv_t *s, int max, int allow_ll, unsi
       ares_inet_pton(AF_INET6, s[i].text, s[i].addr);
       *cls |= SC_V6;
     } else {
-      static const char *const ifs[] = { "lo", "eth0", "wlan0" };
+      static const char *const ifs[]  = { "lo", "eth0", "wlan0" };
+      static const char *const pifs[] = { "vpn0", "vpn1" };
       gen_ipv6_ll(r, s[i].text);
       s[i].family = AF_INET6;
       ares_inet_pton(AF_INET6, s[i].text, s[i].addr);
-      strcpy(s[i].iface, PICK(r, ifs));
+      if (cfg_private_ifaces && vh_chance(r, 1, 2)) {
+        strcpy(s[i].iface, PICK(r, pifs));
+      } else {
+        strcpy(s[i].iface, PICK(r, ifs));
+      }
       *cls |= SC_LL;
     }
     switch (vh_below(r, 4)) {
